@@ -146,6 +146,12 @@ func runC11(c *Ctx) error {
 	if c.Thorough {
 		nHist, maxLen = 250, 60
 	}
+	var prods []*prodHooks
+	defer func() {
+		for _, p := range prods {
+			p.close()
+		}
+	}()
 	for k := 0; k < nHist; k++ {
 		hook := &hookClient{}
 		ci, err := newChainImpl(fmt.Sprintf("c11-%d.db", k%3), lib.StackOpts{WebhookCli: hook, MaxTries: 1000000})
@@ -186,7 +192,19 @@ func runC11(c *Ctx) error {
 			}
 		}
 		nt.AddChannel(st2.Svc.Webhooks)
+		// the production HTTP client with a silent target (two histories per run; verified at the end of the run)
+		var prod *prodHooks
+		if k < 2 || (c.Thorough && k%25 == 0) {
+			if prod, err = newProdHooks(fmt.Sprint(k)); err != nil {
+				return err
+			}
+			prods = append(prods, prod)
+			nt.AddChannel(prod.st.Svc.Webhooks)
+		}
 		n := 4 + rng.Intn(maxLen-3)
+		if prod != nil && n < 9 {
+			n = 9 // enough stored headers to exhaust a small connection pool
+		}
 		nodes, order := randomHistory(rng, n, uint32(k)+uint32(c.Seed)*48611, k%4 == 0, true)
 		forbidHash := nodes[rng.Intn(n)].Hdr.HashStr()
 		name := fmt.Sprintf("history #%d n=%d", k, n)
@@ -288,6 +306,9 @@ func runC11(c *Ctx) error {
 			fail(fmt.Sprintf("the failing webhook with max_tries=2 was called %d times", n), "2", fmt.Sprint(n), "c11-events:webhook-deactivation")
 		}
 		st2.Close()
+		if prod != nil {
+			prod.name, prod.ops, prod.want, prod.started = name+" (production webhook client)", append([]string{}, ops...), append([]string{}, expected...), time.Now()
+		}
 		for ch, n := range pubOK.chans {
 			if ch != "headers" {
 				fail("websocket event published to channel "+ch, "headers", fmt.Sprint(n), "c11-events:websocket")
@@ -307,6 +328,14 @@ func runC11(c *Ctx) error {
 		}
 		ci.Close()
 	}
+	for _, p := range prods {
+		p.verify(c, c11Patience)
+	}
+	prods = nil
 	c.R.ModelOps = l.Ops
 	return nil
 }
+
+// c11Patience: how long after the end of ingestion the webhook listed after a silent target may have to wait
+// (the production client's request timeout plus a margin).
+const c11Patience = 40 * time.Second
